@@ -10,6 +10,8 @@ def firstPanic : Nat → List Outcome → Option (Int × Nat)
   | _, [] => none
   | i, .ok :: rest => firstPanic (i + 1) rest
   | i, .panic v :: _ => some (v, i)
+  | _, .panicNil :: _ => none      -- ends the loop, but the inner `recover()` returns nil
+  | _, .goexit :: _ => none        -- ends the goroutine
 
 theorem runCleanups_snd (i : Nat) (cl : List Outcome) : (runCleanups i cl).2 = firstPanic i cl := by
   induction cl generalizing i with
@@ -57,5 +59,50 @@ theorem runCleanups_split (i : Nat) (pre : List Outcome) (v : Int) (post : List 
       omega
     · simp only [Option.some.injEq, Prod.mk.injEq, true_and]
       omega
+
+/-- The cleanups before the first one that ends SILENTLY (`panic(nil)` under `panicnil=1`, or
+`Goexit`): exactly these `pre.length + 1` cleanups are called, the rest is skipped, and the
+inner deferred function has nothing to report. -/
+theorem runCleanups_split_silent (i : Nat) (pre : List Outcome) (c : Outcome) (post : List Outcome)
+    (h : ∀ c ∈ pre, c = .ok) (hc : c = .panicNil ∨ c = .goexit) :
+    runCleanups i (pre ++ c :: post) = ((List.range (pre.length + 1)).map (· + i), none) := by
+  induction pre generalizing i with
+  | nil => rcases hc with rfl | rfl <;> simp [runCleanups]
+  | cons c0 rest ih =>
+    have hc0 : c0 = .ok := h c0 (by simp)
+    subst hc0
+    have ih' := ih (i + 1) (fun c hc => h c (by simp [hc]))
+    simp only [List.cons_append, runCleanups, ih', List.length_cons]
+    refine Prod.ext ?_ rfl
+    simp only
+    rw [List.range_succ_eq_map (n := rest.length + 1)]
+    simp only [List.map_cons, List.map_map, Nat.zero_add, List.cons.injEq, true_and]
+    apply List.map_congr_left
+    intro a _
+    simp only [Function.comp]
+    omega
+
+/-- No cleanup calls `Goexit`: the goroutine is not ended by the cleanups. -/
+theorem cleanupsGoexit_false (cl : List Outcome) (h : ∀ c ∈ cl, c ≠ .goexit) :
+    cleanupsGoexit cl = false := by
+  induction cl with
+  | nil => rfl
+  | cons c rest ih =>
+    have hc := h c (by simp)
+    cases c with
+    | ok => simpa [cleanupsGoexit] using ih (fun c hc => h c (by simp [hc]))
+    | panic v => rfl
+    | panicNil => rfl
+    | goexit => exact absurd rfl hc
+
+/-- The first cleanup that does not return is a `Goexit` (the earlier ones return). -/
+theorem cleanupsGoexit_split (pre post : List Outcome) (h : ∀ c ∈ pre, c = .ok) :
+    cleanupsGoexit (pre ++ .goexit :: post) = true := by
+  induction pre with
+  | nil => rfl
+  | cons c rest ih =>
+    have hc : c = .ok := h c (by simp)
+    subst hc
+    simpa [cleanupsGoexit] using ih (fun c hc => h c (by simp [hc]))
 
 end Golib.C19
